@@ -338,6 +338,14 @@ func (b *BloomSearchEngine) Stop(ctx context.Context) error {
 	verifPoint("stop.waiting", 0, 0, nil)
 	select {
 	case <-done:
+		// The workers have exited. If ctx expired on the way, the watcher may
+		// already have aborted flush work and done-channel deliveries, so the
+		// shutdown was not graceful even though both cases are ready now:
+		// report the deadline rather than nil.
+		if err := ctx.Err(); err != nil {
+			b.flushCancel()
+			return fmt.Errorf("shutdown timeout exceeded: %w", err)
+		}
 		// Workers finished gracefully
 		stopAfter()
 		verifPoint("stop.ret_nil", 0, 0, nil)
